@@ -141,28 +141,32 @@ PROPS["C01"] = dict(
     assumptions=["well-formed ADFs (every statement declared with exactly one ac, atoms declared); <= 2^16 statements for biodivine"],
 )
 PROPS["C02"] = dict(
-    level_text="Machine-checked proof (Lean 4) of the core: the short-circuiting, store-threading filter of Adf::complete accepts a vector iff its decided part is a fixpoint of the consequence "
-               "operator, for every lawful back-end (C02.filter_iff_fixpoint); the grounded interpretation is complete and lies below every complete interpretation, so enumerating only its "
-               "refinements loses nothing (grounded_below_every_complete, grounded_is_complete); pre-grounding preserves the set of complete interpretations (pregrounded_same_complete). "
-               "The statement about the concrete enumeration (Nodup, exactness, grounded first) is kept as complete_exact_statement and is a composition with C20's enumeration theorem "
-               "(PARTIAL: composition not yet proved). Tie to the code: complete models on native/biodivine/hybrid/pre-grounded pipelines, order-exact and handle-exact against the model, "
-               "multiset + first element against the brute-force specification.",
-    level_note="Trusted: Lean kernel + standard axioms; composition with the iterator theorem (C20) is stated, not yet proved; biodivine modelled as a lawful restriction algebra; correspondence differential (n <= 7).",
-    technique="Lean 4 proof (filter = fixpoint test over a generic restriction algebra) + correspondence check + brute-force specification oracle",
+    level_text="Machine-checked proof (Lean 4) for the CONCRETE enumeration completeAll (the function the driver runs handle for handle against Adf::complete): for every well-formed store and valid "
+               "conditions, the listed interpretations are Nodup, a three-valued w is listed iff it has the right length and is a fixpoint of the consequence operator, and the first one is the "
+               "grounded interpretation (C02.complete_exact; the loop keeps the store well formed: complete_store). Ingredients: the short-circuiting store-threading filter accepts a vector iff its "
+               "decided part is a fixpoint, for every lawful back-end (filter_iff_fixpoint); the three-valued iterator enumerates every refinement once, grounded first (C20); the grounded "
+               "interpretation lies below every fixpoint (grounded_below_every_complete); pre-grounding preserves the complete interpretations (pregrounded_same_complete). Tie to the code: complete "
+               "models on native / biodivine / hybrid / pre-grounded pipelines, order-exact and handle-exact against the model, multiset + first element against the brute-force specification "
+               "(which is itself proved equal to the Prop-level semantics: SpecSound.completeAll_spec).",
+    level_note="Trusted: Lean kernel + standard axioms; biodivine modelled as a lawful restriction algebra (its answers are compared with the specification and, as T/F/u sequences, with the model); "
+               "correspondence differential (n <= 7).",
+    technique="Lean 4 proof (filter = fixpoint test; iterator theorem; least-fixpoint lower bound) + handle-exact correspondence + verified brute-force specification",
     jobs=[Job("adf", 1200, 40000, size=6, size_thorough=7, extra=("sem",),
               relevant=heads("build", "adopt", "complete", "adump", "wfcheck"), nontrivial=nt_adf)],
     rule=SEM_RULE,
     assumptions=["well-formed ADFs"],
 )
 PROPS["C03"] = dict(
-    level_text="Machine-checked proof (Lean 4) of the core: for a total candidate v, 'the least fixpoint of the reduct equals v at every position' (the code's test) iff 'v is a two-valued model whose true "
-               "statements are true in that least fixpoint' (the definition) (C03.check_iff_stable); the reduct's operator agrees with the consequence operator on total candidates (pre-filter "
-               "rejects no stable model: reduct_agrees_on_total); pre-grounding preserves the least fixpoints of all reducts above the grounded interpretation (pregrounded_same_reduct_lfp). "
-               "The statement about the concrete enumeration stableAll is kept as stable_exact_statement (PARTIAL: composition with C20/C01 not yet proved). Tie to the code: stable, "
-               "stable_with_prefilter, both stable_bdd_representation variants and the biodivine variants incl. the prepared rewriting, on all pipelines; handle/order exact where the order is "
-               "the library's own, multisets where biodivine's sat_valuations orders the candidates; all against the brute-force specification.",
-    level_note="Trusted: Lean kernel + standard axioms; biodivine's sat_valuations assumed to enumerate each satisfying valuation once (observed); composition theorem stated, not yet proved; correspondence differential (n <= 7).",
-    technique="Lean 4 proof (reduct / least-fixpoint characterisation of the stability test) + correspondence check + brute-force specification oracle",
+    level_text="Machine-checked proof (Lean 4) for the CONCRETE enumerations stableAll and the pre-filter variant (what the driver runs against Adf::stable / stable_with_prefilter): the listed "
+               "interpretations are Nodup and v is listed iff it is a total fixpoint whose true statements are true in the least fixpoint of the reduct (C03.stable_exact, stablepre_exact); both variants "
+               "emit the same list in the same order, so the pre-filter rejects no stable model (stablepre_same_answers); mapFalse denotes the reduct (mapFalse_is_reduct) and the code's test on one "
+               "total candidate decides the definition from any well-formed store (test_decides_stability, check_iff_stable); pre-grounding preserves the least fixpoints of all reducts above the "
+               "grounded interpretation (pregrounded_same_reduct_lfp). Tie to the code: stable, stable_with_prefilter, both stable_bdd_representation variants and the biodivine variants incl. the "
+               "rewriting prepared at construction, on all pipelines and under permuted fact orders / sortings; handle/order exact where the order is the library's own, multisets where biodivine "
+               "orders the candidates; all against the brute-force specification (proved: SpecSound.stable_spec).",
+    level_note="Trusted: Lean kernel + standard axioms; biodivine's sat_valuations assumed to enumerate each satisfying valuation once (observed); the rewriting variants' candidate generation (one big "
+               "biodivine formula) is not modelled, its results are judged by the specification; correspondence differential (n <= 7).",
+    technique="Lean 4 proof (reduct / least-fixpoint characterisation of the stability test, iterator theorem) + handle-exact correspondence + verified brute-force specification",
     jobs=[Job("adf", 1200, 40000, size=6, size_thorough=7, extra=("sem",),
               relevant=heads("build", "adopt", "stable", "stablepre", "stablerew", "stablerew2", "adump", "wfcheck"), nontrivial=nt_adf),
           Job("adf", 200, 8000, size=5, size_thorough=6, extra=("present",), relevant=heads("present", "presented"), nontrivial=nt_adf, label="adf-orders")],
@@ -230,15 +234,17 @@ PROPS["C09"] = dict(
     assumptions=["well-formed ADFs"],
 )
 PROPS["C10"] = dict(
-    level_text="Machine-checked proof (Lean 4) at specification level: the consequence operator commutes with every re-presentation (bijective renumbering/renaming of statements) "
-               "(C10.consequence_operator_equivariant), hence complete and two-valued models correspond (complete_equivariant). PARTIAL: the corollaries for the least fixpoint and the reduct "
-               "(grounded, stable) are stated (lfp_equivariant_statement) but not written out. Tie to the code: metamorphic runs - each generated ADF is presented 5 ways (random permutation of all "
-               "s/ac facts incl. ac before s, sorting none / lexicographic / alphanumeric, random label classes incl. keyword-like and numeric labels, random whitespace layout); grounded, complete, "
-               "stable and two-valued answers of the native and biodivine back-ends are mapped back to the original statements and compared with the specification's answers for the ORIGINAL "
-               "framework; the variable order reported by the parser is checked (permutation; declaration order without sorting; byte-wise ascending labels with lexicographic sorting), and the "
-               "native run under that order is compared handle for handle with the model.",
-    level_note="Trusted: Lean kernel + standard axioms; sort_unstable / natural_lexical_cmp trusted to return a permutation (checked per run); lfp/stable equivariance corollaries not yet proved (partial); CLI flags --lx/--an are covered by C15.",
-    technique="Lean 4 proof (equivariance of the consequence operator) + metamorphic correspondence runs against the order-independent specification",
+    level_text="Machine-checked proof (Lean 4): the consequence operator commutes with every re-presentation (bijective renumbering / renaming of statements; C10.consequence_operator_equivariant, "
+               "presentation_symmetric), hence complete interpretations (complete_equivariant), the least fixpoint (lfp_equivariant, grounded_equivariant), the reduct (reduct_equivariant) and stable "
+               "models (stable_equivariant) correspond, and so do the ANSWERS of the concrete functions: grounded vectors, completeAll and stableAll answers of two well-formed stores whose conditions "
+               "are re-presentations of each other (answers_equivariant). Tie to the code: metamorphic runs - each generated ADF is presented 5 ways (random permutation of all s/ac facts incl. ac "
+               "before s, sorting none / lexicographic / alphanumeric, label classes incl. keyword-like and numeric labels, random whitespace layout); grounded, complete, stable and two-valued answers "
+               "of the native and biodivine back-ends and the rewriting / pre-filter variants are mapped back to the original statements and compared with the specification's answers for the ORIGINAL "
+               "framework; the variable order reported by the parser is checked (permutation; declaration order without sorting; byte-wise ascending labels with lexicographic sorting) and the native "
+               "run under that order is compared handle for handle with the model.",
+    level_note="Trusted: Lean kernel + standard axioms; sort_unstable / natural_lexical_cmp trusted to return a permutation (checked per run); layout changes are parser matters (C08); CLI flags --lx/--an "
+               "are exercised by C15.",
+    technique="Lean 4 proof (equivariance of the consequence operator, lifted to least fixpoints, reducts and the concrete enumerations) + metamorphic correspondence runs against the order-independent specification",
     jobs=[Job("adf", 500, 20000, size=6, size_thorough=7, extra=("present",), relevant=heads("present", "presented", "ordercheck"), nontrivial=nt_adf)],
     rule=ADF_GEN + "5 presentations per ADF (fact permutation x sorting mode x label class x layout); answers as statement->value maps vs Spec on the original; order checks; non-trivial = distinct ADF with >= 2 statements and >= 5 nodes",
     assumptions=["labels alphanumeric (quoted labels are C08/C15)"],
@@ -468,6 +474,10 @@ PROPS["C14"] = dict(
     assumptions=["fix_import exactly once after an import (stated precondition)"],
 )
 
+
+sys.path.insert(0, os.path.join(R.VERIF, "harness", "sysharness"))
+import webchecks  # noqa: E402
+webchecks.register(PROPS)
 
 # ----------------------------------------------------------------------------------------------
 
@@ -774,6 +784,8 @@ def decide(prop, tier, seed, cfg, proof, results, build_fail, known, extra_res, 
 
 def replay(prop, path):
     data = json.load(open(path))
+    if PROPS[prop].get("replay"):
+        return PROPS[prop]["replay"](prop, data)
     fset = data.get("feature_set", "default")
     ok, err = R.build_harness(fset)
     if not ok:
@@ -816,6 +828,11 @@ def setup():
         print(err)
         return 1
     R.log(f"adf-bdd and adf-bdd-server built ({time.time() - t0:.0f} s)")
+    ok, err, _ = webchecks.web_build_server()
+    if not ok:
+        print(err)
+        return 1
+    R.log(f"adf-bdd-server with optimised dependencies built ({time.time() - t0:.0f} s)")
     R.run(["cargo", "build", "--offline", "-p", "adf-bdd-bin", "--no-default-features", "--features", "variablelist"],
           cwd=R.REPO, env={"CARGO_TARGET_DIR": os.path.join(R.TARGET, "repo-vl")}, timeout=3600)
     return 0
